@@ -479,6 +479,14 @@ def gen_c14(ctx):
         specs.append(spec(3, ["Y", "EC200000", "nosuch"], term=term, i="I", o="I") + " perr=1")
         specs.append(spec(4, ["Y", "C", "EC200000", "nosuch"], term=term, i="I", o="I") + " perr=2")
         specs.append(spec(3, ["Y", "EC100", "nosuch"], term=term, i="I", o="I") + " perr=01")
+    # the pipeline's own stdin and stdout are the two ends of one pipe (files handed in by the caller): whatever the library
+    # still holds of them when it cleans up a failed start keeps the first command from seeing end-of-file.
+    # (Caller-made pipes are outside `Pipe.Cfg`: oracle-only, like the perr= cases.)
+    for n, k in ((3, 1), (4, 1), (4, 2), (3, 2), (2, 1), (3, 0)):
+        for term in ("join", "popen"):
+            st = ["C"] * n
+            st[k] = "nosuch"
+            specs.append(spec(n, st, term=term, i="F", o="F") + " ring=1 perr=-")
     # the known finding: a command writing without bound to the captured stderr while a later one fails to start
     specs.append(spec(2, ["YE", "nosuch"], term="capture", i="I", o="I"))
     if not quick:
@@ -538,6 +546,12 @@ def gen_c12(ctx):
     # while still holding the pipe it writes to
     specs.append(spec(1, ["YC"], i="D", term="capture", data=50000, read="all") + " epipe=1")
     specs.append(spec(2, ["YC", "C"], i="D", term="capture", data=50000, read="all") + " epipe=1")
+    # the handle is dropped by a panic unwinding the caller's frame (caught further up): same obligations as any drop
+    for beh in ["G10:0", "G200000:3"]:
+        specs.append(spec(1, [beh], o="F", term="popen") + " panic=1")
+    specs.append(spec(1, ["C"], i="P", o="F", term="popen") + " panic=1")
+    specs.append(spec(3, ["G10:0", "C", "C"], o="F", term="popen") + " panic=1")
+    specs.append(spec(2, ["G10:0", "C"], o="F", term="popen", det="11") + " panic=1")
     # a command that is stopped for a while (SIGSTOP ... SIGCONT) and then ends: waiting for it means waiting for its exit
     for term, kw in (("join", {}), ("popen", {"o": "F"}), ("capture", {"read": "all"}), ("stream_stdout", {"read": "all"})):
         specs.append(spec(1, ["SS300"], i="F", term=term, data=3, **kw))
